@@ -31,7 +31,7 @@ from engine import codec as K
 from engine.codec import SBytes, SStr, HarnessError
 
 BOM = (0xEF, 0xBB, 0xBF)
-MAX_RECODE = 16          # byte length up to which symbolic non-ASCII text is re-encoded (forks per character)
+MAX_RECODE = 16          # byte length up to which symbolic non-ASCII text is re-encoded (forks per character); longer: BoundHit
 MODELLED = "utf-8, utf-8-sig, ascii and stateless ASCII-compatible single-byte charmaps (latin-1, cp1252, ...)"
 
 
@@ -176,7 +176,8 @@ def _subst(ps, f, terms):
 def _utf8_to_single(terms, name, tbl, errors):
     """well-formed utf-8 byte terms -> byte terms in a single-byte codec (tbl = {} for ascii); forks per character"""
     if len(terms) > MAX_RECODE:
-        raise _unmodelled(name, f'symbolic non-ASCII utf-8 text longer than {MAX_RECODE} bytes re-encoded')
+        # the result length depends on every character: cut this path (counted as a bound hit), keep exploring the others
+        raise symex.BoundHit(f'symbolic non-ASCII utf-8 text longer than {MAX_RECODE} bytes re-encoded as {name}')
     out, i, n = [], 0, len(terms)
     while i < n:
         t = terms[i]
@@ -228,7 +229,7 @@ def _forward(name, tbl):
 def _single_to_utf8(terms, name, tbl):
     """byte terms of a strictly decoded single-byte text -> its utf-8 byte terms; forks on the utf-8 length per byte"""
     if len(terms) > MAX_RECODE:
-        raise _unmodelled(name, f'symbolic non-ASCII {name} text longer than {MAX_RECODE} bytes re-encoded as utf-8')
+        raise symex.BoundHit(f'symbolic non-ASCII {name} text longer than {MAX_RECODE} bytes re-encoded as utf-8')
     p, groups = _forward(name, tbl)
     out = []
     for t in terms:
